@@ -182,6 +182,10 @@ def classify(b, diff, a, e):
     if b["dialect"] == "non-validating" and t & {"select.star_qualified", "select.star"} and diff == ["column_pairs"] and \
             any(p[0].endswith(".*") for k in ("original_mapped_minus_renamed", "renamed_minus_original") for p in _pairs(b, k)):
         return "KF-30e"  # whether the legacy analyzer expands a star over a derived table depends on how the aliases around it are spelled
+    # KF-41: the legacy analyzer analyses all branches of a set operation with one alias map: a name bound in two scopes after the renaming
+    m = {k: v for k, v in (b.get("mapping") or {}).items()}
+    if b["dialect"] == "non-validating" and b["mode"] == "rename" and any(x.startswith("setop.") for x in t) and len({str(v).lower() for v in m.values()}) < len(m):
+        return "KF-41"
     # KF-32: which relations of a FROM clause survive this parse quirk depends on whether they carry aliases
     if diff == ["source"] or diff == ["source", "column_pairs"]:
         if "where.in_subquery_comma_join" in t:
